@@ -28,6 +28,8 @@ def narrow_ctx(rng, t, u):
             lambda: ('bin', '=', ('index', ('field', ('this',), 'xs'), u), int_lit(1)),
             lambda: ('bin', 'in', int_lit(1), ('range', u, int_lit(5), False, False)),
             lambda: ('bin', '<=', ('un', '-', u), int_lit(2)),
+            # every single-overload numeric function narrows its argument to a number
+            lambda: ('bin', '<', ('call', rng.choice(['sqrt', 'ceil', 'floor', 'sin', 'cos', 'tan', 'asin', 'acos', 'atan', 'deg', 'rad']), [u]), int_lit(2)),
         ])()
     if t == 'bool':
         return rng.choice([
@@ -47,9 +49,15 @@ def narrow_ctx(rng, t, u):
             lambda: ('bin', 'in', int_lit(1), u),
             lambda: ('bin', '=', ('index', u, int_lit(0)), int_lit(1)),
             lambda: ('quant', 'all', 'kk', u, ('bin', '>', ('var', 'kk'), int_lit(0))),
+            # aggregates, including the overloaded ones (collection | two or more numbers): a reference can only be an array
+            lambda: ('bin', '>', ('call', rng.choice(['sum', 'prod', 'max', 'min', 'gcd']), [u]), int_lit(1)),
         ])()
     if t == 'msg':
-        return ('bin', '=', ('field', u, 'f'), int_lit(1))
+        return rng.choice([
+            lambda: ('bin', '=', ('field', u, 'f'), int_lit(1)),
+            # the overloaded quaternion projections (message | four numbers)
+            lambda: ('bin', '>', ('call', rng.choice(['roll', 'pitch', 'yaw']), [u]), int_lit(1)),
+        ])()
     raise ValueError(t)
 
 
